@@ -680,6 +680,17 @@ class Random:
     def random(self, size=None):
         return self.glob.random(size)
 
+    def randint(self, low, high=None, size=None, dtype=int):
+        """an integer determined by the position in the global stream (one draw per element)"""
+        d = self.glob._draws(size)
+        if isinstance(d, numpy.ndarray):
+            for i in numpy.ndindex(*d.shape):
+                d[i].isint = True
+        else:
+            d.isint = True
+        return d
+    random_integers = randint
+
     def choice(self, a, size=None, replace=True, p=None):
         self.glob.index += 1
         self.glob.log.append(("choice", size))
